@@ -368,6 +368,24 @@ pub fn check(scn: &dyn Scenario, opts: &CheckOpts) -> i32 {
             eprintln!("violation class={} did not reproduce in a fresh process (nondeterministic run); not reported", f.class);
             continue;
         }
+        let mut ok = ok;
+        let (mut plan, mut tape, mut detail, mut digest) = (plan, tape, detail, digest);
+        if !ok && !nondeterministic {
+            // State that outlives a run (a static in the tree) can fool the minimiser: a shrunk candidate may have
+            // failed only because of what earlier runs left behind. Fall back to the run exactly as it was found.
+            let file = json!({
+                "property": prop, "scenario": scn.cli_name(), "class": f.class, "detail": f.detail, "seed": opts.seed, "run_index": f.index,
+                "tier": opts.tier.name(), "plan": f.plan, "tape": f.tape, "digest": format!("{:016x}", f.digest),
+                "original_detail": f.detail,
+            });
+            std::fs::write(&path, serde_json::to_string_pretty(&file).unwrap()).expect("write replay");
+            if replay_in_fresh_process(&path, false) || replay_in_fresh_process(&path, true) {
+                eprintln!("WARNING: the minimised form of {} did not reproduce in a fresh process; the run as found does and is reported instead", path);
+                ok = true;
+                (plan, tape, detail, digest) = (f.plan.clone(), f.tape.clone(), f.detail.clone(), f.digest);
+            }
+        }
+        let _ = (&plan, &tape, &digest);
         if !ok {
             // The tree may carry a source of nondeterminism that the sampled re-executions did not touch.
             // The violation happened against the real code; it is reported if its class shows again in a
